@@ -491,7 +491,7 @@ func TestC27AutoAlloc(t *testing.T) {
 		t.Skip()
 	}
 
-	kit.SetChecks(6000, 40000)
+	kit.SetChecks(20000, 100000)
 	rapid.Check(t, func(rt *rapid.T) { run(rt, genC27(rt)) })
 }
 
